@@ -244,6 +244,8 @@ Proof.
 Qed.
 
 (* ------------------------------------------------------------------------------------ loops, generically *)
+Definition stopped (oc : outcome) : Prop := exists r, oc = OStop r.
+
 Section LoopFacts.
   Variable cnd : env_t -> nat -> bool * nat.
   Variable bdy : env_t -> nat -> res.
@@ -253,21 +255,21 @@ Section LoopFacts.
     (oc = ONormal -> P1 env') /\ (oc = OBreak -> Q env').
 
   Lemma loop_forever_sound : forall n env pos oc env' pos' tr,
-    loop_forever bdy n env pos = (oc, env', pos', tr) -> Pin env -> oc = OFuel \/ (oc = ONormal /\ Q env').
+    loop_forever bdy n env pos = (oc, env', pos', tr) -> Pin env -> stopped oc \/ (oc = ONormal /\ Q env').
   Proof.
     induction n as [|n IH]; intros env pos oc env' pos' tr H HP; cbn [loop_forever] in H.
-    - inversion H. left. reflexivity.
+    - inversion H. left. eexists. reflexivity.
     - unfold after_body in H. destruct (bdy env pos) as [[[oc1 env1] pos1] tr1] eqn:E.
       destruct (step _ _ _ _ _ _ E HP) as [Hn Hb]. destruct oc1.
       + destruct (loop_forever bdy n env1 pos1) as [[[oc2 env2] pos2] tr2] eqn:E2. cbn in H. inversion H; subst.
         eapply IH; [exact E2 | apply P1_in; apply Hn; reflexivity].
       + inversion H; subst. right. split; [reflexivity | apply Hb; reflexivity].
-      + inversion H. left. reflexivity.
+      + inversion H. left. eexists. reflexivity.
   Qed.
 
   Lemma loop_count_sound : forall n env pos oc env' pos' tr,
     loop_count bdy n env pos = (oc, env', pos', tr) -> Pin env ->
-    oc = OFuel \/ (oc = ONormal /\ (Q env' \/ (n = O /\ env' = env) \/ P1 env')).
+    stopped oc \/ (oc = ONormal /\ (Q env' \/ (n = O /\ env' = env) \/ P1 env')).
   Proof.
     induction n as [|n IH]; intros env pos oc env' pos' tr H HP; cbn [loop_count] in H.
     - inversion H; subst. right. split; [reflexivity|]. right. left. split; reflexivity.
@@ -281,16 +283,16 @@ Section LoopFacts.
         * subst. right. split; [reflexivity | right; right; exact Hn].
         * right. split; [exact G1 | right; right; exact G].
       + inversion H; subst. right. split; [reflexivity | left; apply Hb; reflexivity].
-      + inversion H. left. reflexivity.
+      + inversion H. left. eexists. reflexivity.
   Qed.
 
   Hypothesis exit_r : forall env pos p, P1 env -> cnd env pos = (true, p) -> Q env.
 
   Lemma loop_repeat_sound : forall n env pos oc env' pos' tr,
-    loop_repeat cnd bdy n env pos = (oc, env', pos', tr) -> Pin env -> oc = OFuel \/ (oc = ONormal /\ Q env').
+    loop_repeat cnd bdy n env pos = (oc, env', pos', tr) -> Pin env -> stopped oc \/ (oc = ONormal /\ Q env').
   Proof.
     induction n as [|n IH]; intros env pos oc env' pos' tr H HP; cbn [loop_repeat] in H.
-    - inversion H. left. reflexivity.
+    - inversion H. left. eexists. reflexivity.
     - unfold after_body in H. destruct (bdy env pos) as [[[oc1 env1] pos1] tr1] eqn:E.
       destruct (step _ _ _ _ _ _ E HP) as [Hn Hb]. destruct oc1.
       + specialize (Hn eq_refl). destruct (cnd env1 pos1) as [v p] eqn:Ec. destruct v.
@@ -298,7 +300,7 @@ Section LoopFacts.
         * destruct (loop_repeat cnd bdy n env1 p) as [[[oc2 env2] pos2] tr2] eqn:E2. cbn in H. inversion H; subst.
           eapply IH; [exact E2 | apply P1_in; exact Hn].
       + inversion H; subst. right. split; [reflexivity | apply Hb; reflexivity].
-      + inversion H. left. reflexivity.
+      + inversion H. left. eexists. reflexivity.
   Qed.
 End LoopFacts.
 
@@ -309,17 +311,17 @@ Section LoopWhile.
   Hypothesis step : forall env pos oc env' pos' tr, bdy env pos = (oc, env', pos', tr) -> P env -> P env'.
 
   Lemma loop_while_sound : forall n env pos oc env' pos' tr,
-    loop_while cnd bdy n env pos = (oc, env', pos', tr) -> P env -> (oc = OFuel \/ oc = ONormal) /\ P env'.
+    loop_while cnd bdy n env pos = (oc, env', pos', tr) -> P env -> (stopped oc \/ oc = ONormal) /\ P env'.
   Proof.
     induction n as [|n IH]; intros env pos oc env' pos' tr H HP; cbn [loop_while] in H.
-    - inversion H; subst. split; [left; reflexivity | exact HP].
+    - inversion H; subst. split; [left; eexists; reflexivity | exact HP].
     - destruct (cnd env pos) as [v p] eqn:Ec. destruct v.
       + unfold after_body in H. destruct (bdy env p) as [[[oc1 env1] pos1] tr1] eqn:E.
         pose proof (step _ _ _ _ _ _ E HP) as HP1. destruct oc1.
         * destruct (loop_while cnd bdy n env1 pos1) as [[[oc2 env2] pos2] tr2] eqn:E2. cbn in H. inversion H; subst.
           eapply IH; eassumption.
         * inversion H; subst. split; [right; reflexivity | exact HP1].
-        * inversion H; subst. split; [left; reflexivity | exact HP1].
+        * inversion H; subst. split; [left; eexists; reflexivity | exact HP1].
       + inversion H; subst. split; [right; reflexivity | exact HP].
   Qed.
 End LoopWhile.
@@ -418,6 +420,15 @@ Section Equations.
               match oc with ONormal => (OBreak, env2, pos2, tr) | _ => (oc, env2, pos2, tr) end
     else (ONormal, env, p, []).
   Proof. reflexivity. Qed.
+  Lemma exec_assert : forall inl c env pos, exec_stmt o fuel inl (SAssert c) env pos =
+    let '(v, p) := eval o c env pos in if v then (ONormal, env, p, []) else (OStop true, env, p, []).
+  Proof. reflexivity. Qed.
+  Lemma exec_returnif : forall inl e c b env pos, exec_stmt o fuel inl (SReturnIf e c b) env pos =
+    let '(v, p) := eval o c env pos in
+    if v then let '(oc, env2, pos2, tr) := exec_block o fuel inl b env p in
+              match oc with ONormal => (OStop true, env2, pos2, tr) | _ => (oc, env2, pos2, tr) end
+    else (ONormal, env, p, []).
+  Proof. reflexivity. Qed.
   Lemma exec_while : forall inl c b env pos, exec_stmt o fuel inl (SWhile c b) env pos =
     loop_while (eval o c) (exec_block o fuel true b) fuel env pos.
   Proof. reflexivity. Qed.
@@ -457,6 +468,14 @@ Section BEquations.
     let '(tl, fl) := bindc x c cur in
     let '(e, br, pr) := bblock x d inl b (fin tl cur) in
     (fl, br ++ [force e], pr).
+  Proof. reflexivity. Qed.
+  Lemma bstmt_assert : forall inl c cur, bstmt x d inl (SAssert c) cur =
+    let '(tl, fl) := bindc x c cur in (fin tl cur, [], []).
+  Proof. reflexivity. Qed.
+  Lemma bstmt_returnif : forall inl e c b cur, bstmt x d inl (SReturnIf e c b) cur =
+    let '(tl, fl) := bindc x c cur in
+    let '(e0, br, pr) := bblock x d inl b (fin tl cur) in
+    (fl, br, pr).
   Proof. reflexivity. Qed.
   Lemma bstmt_while : forall inl c b cur, bstmt x d inl (SWhile c b) cur =
     let '(tl, fl) := bindc x c cur in
@@ -557,6 +576,13 @@ Section ExecFacts.
       + dres (exec_block o fuel inl b env p) as oc1 e1 p1 tr1 E1. assert (getv e1 x = getv env x) as G by (eapply IHb; eassumption).
         destruct oc1; inversion H; subst; exact G.
       + inversion H; subst. reflexivity.
+    - intros c inl env pos oc env' pos' tr Ha H. rewrite exec_assert in H.
+      destruct (eval o c env pos) as [v p]. destruct v; inversion H; subst; reflexivity.
+    - intros e c b IHb inl env pos oc env' pos' tr Ha H. cbn [assigns_s] in Ha. rewrite exec_returnif in H.
+      destruct (eval o c env pos) as [v p]. destruct v.
+      + dres (exec_block o fuel inl b env p) as oc1 e1 p1 tr1 E1. assert (getv e1 x = getv env x) as G by (eapply IHb; eassumption).
+        destruct oc1; inversion H; subst; exact G.
+      + inversion H; subst. reflexivity.
     - intros inl env pos oc env' pos' tr Ha H. cbn in H. inversion H; subst. reflexivity.
     - intros b IHb inl env pos oc env' pos' tr Ha H. cbn [assigns_r] in Ha. rewrite exec_relse in H. eapply IHb; eassumption.
     - intros c t IHt r IHr inl env pos oc env' pos' tr Ha H. cbn [assigns_r] in Ha. apply orb_false_iff in Ha. destruct Ha as [Ha1 Ha2].
@@ -594,6 +620,13 @@ Section ExecFacts2.
     - intros b IHb c env pos oc env' pos' tr H. rewrite exec_repeat in H. eapply loop_repeat_trace; [|exact H]. intros. eapply IHb; eassumption.
     - intros a z b IHb env pos oc env' pos' tr H. rewrite exec_for in H. eapply loop_count_trace; [|exact H]. intros. eapply IHb; eassumption.
     - intros c b IHb env pos oc env' pos' tr H. rewrite exec_breakif in H.
+      destruct (eval o c env pos) as [v p]. destruct v.
+      + dres (exec_block o fuel true b env p) as oc1 e1 p1 tr1 E1. pose proof (IHb _ _ _ _ _ _ E1) as G.
+        destruct oc1; inversion H; subst; exact G.
+      + inversion H. constructor.
+    - intros c env pos oc env' pos' tr H. rewrite exec_assert in H.
+      destruct (eval o c env pos) as [v p]. destruct v; inversion H; constructor.
+    - intros e c b IHb env pos oc env' pos' tr H. rewrite exec_returnif in H.
       destruct (eval o c env pos) as [v p]. destruct v.
       + dres (exec_block o fuel true b env p) as oc1 e1 p1 tr1 E1. pose proof (IHb _ _ _ _ _ _ E1) as G.
         destruct oc1; inversion H; subst; exact G.
@@ -659,6 +692,13 @@ Section ExecFacts2.
     - intros b _ c inl env pos oc env' pos' tr _ H. rewrite exec_repeat in H. eapply loop_repeat_nb. exact H.
     - intros a z b _ inl env pos oc env' pos' tr _ H. rewrite exec_for in H. eapply loop_count_nb. exact H.
     - intros c b _ inl env pos oc env' pos' tr Hb H. cbn in Hb. discriminate.
+    - intros c inl env pos oc env' pos' tr _ H. rewrite exec_assert in H.
+      destruct (eval o c env pos) as [v p]. destruct v; inversion H; discriminate.
+    - intros e c b IHb inl env pos oc env' pos' tr Hb H. cbn [own_break_s] in Hb. rewrite exec_returnif in H.
+      destruct (eval o c env pos) as [v p]. destruct v.
+      + dres (exec_block o fuel inl b env p) as oc1 e1 p1 tr1 E1. pose proof (IHb _ _ _ _ _ _ _ Hb E1) as G.
+        destruct oc1; inversion H; subst; try discriminate. exact G.
+      + inversion H. discriminate.
     - intros inl env pos oc env' pos' tr _ H. cbn in H. inversion H. discriminate.
     - intros b IHb inl env pos oc env' pos' tr Hb H. rewrite exec_relse in H. eapply IHb; eassumption.
     - intros c t IHt r IHr inl env pos oc env' pos' tr Hb H. cbn [own_break_r] in Hb. apply orb_false_iff in Hb. destruct Hb.
@@ -719,6 +759,14 @@ Section BFacts.
       assert (wf (fin tl cur)) as Hfin by (destruct tl; [exact Hw | exact Htl]).
       destruct (IHb _ _ _ _ _ Eb Hfin) as [He Hbr].
       split; [exact Hfl | apply wf_app; [exact Hbr | apply wf_single; apply force_wf; exact He]].
+    - intros c inl cur cur' brks prs H Hw. rewrite bstmt_assert in H.
+      destruct (bindc x c cur) as [tl fl] eqn:Ec. destruct (bindc_wf _ _ _ _ _ Ec Hw) as [Htl Hfl].
+      inversion H; subst. split; [apply wf_fin; assumption | apply wf_nil].
+    - intros e c b IHb inl cur cur' brks prs H Hw. rewrite bstmt_returnif in H.
+      destruct (bindc x c cur) as [tl fl] eqn:Ec. destruct (bindc_wf _ _ _ _ _ Ec Hw) as [Htl Hfl].
+      destruct (bblock x d inl b (fin tl cur)) as [[e0 br] pr] eqn:Eb. inversion H; subst.
+      assert (wf (fin tl cur)) as Hfin by (destruct tl; [exact Hw | exact Htl]).
+      destruct (IHb _ _ _ _ _ Eb Hfin) as [He Hbr]. split; [exact Hfl | exact Hbr].
     - intros inl el cur cur' brks prs H Hel Hw. cbn in H. inversion H; subst. split; [exact Hel | apply wf_nil].
     - intros b IHb inl el cur cur' brks prs H Hel Hw. rewrite brest_relse in H. eapply IHb; eassumption.
     - intros c t IHt r IHr inl el cur cur' brks prs H Hel Hw. rewrite brest_relif in H.
@@ -760,6 +808,10 @@ Section BFacts.
       destruct (is_bnil b); [inversion H; reflexivity|]. destruct (bblock x d true b [force cur]) as [[e br] pr].
       destruct (N.leb a z); inversion H; reflexivity.
     - intros c b _ inl cur cur' brks prs Hb H. cbn in Hb. discriminate.
+    - intros c inl cur cur' brks prs _ H. rewrite bstmt_assert in H. destruct (bindc x c cur) as [tl fl]. inversion H; reflexivity.
+    - intros e c b IHb inl cur cur' brks prs Hb H. cbn [own_break_s] in Hb. rewrite bstmt_returnif in H.
+      destruct (bindc x c cur) as [tl fl]. destruct (bblock x d inl b (fin tl cur)) as [[e0 br] pr] eqn:Eb.
+      inversion H; subst. eapply IHb; eassumption.
     - intros inl el cur cur' brks prs _ H. cbn in H. inversion H; reflexivity.
     - intros b IHb inl el cur cur' brks prs Hb H. rewrite brest_relse in H. eapply IHb; eassumption.
     - intros c t IHt r IHr inl el cur cur' brks prs Hb H. cbn [own_break_r] in Hb. apply orb_false_iff in Hb. destruct Hb as [Hb1 Hb2].
@@ -902,7 +954,7 @@ Section Main.
       destruct (loop_while_sound (eval o c) (exec_block o fuel true b) (fun en => getv en x = getv env x)) with (2 := HE) as [Hoc HP].
       { intros en p oc1 en1 p1 tr1 Hbd Hen. rewrite <- Hen. eapply (proj2 (proj2 (exec_preserves o fuel x))); eassumption. }
       { reflexivity. }
-      split; [intros _; rewrite HP; exact HR | split; [intro Hb; destruct Hoc; congruence|]].
+      split; [intros _; rewrite HP; exact HR | split; [intro Hb; destruct Hoc as [[r Hs]|Hs]; congruence|]].
       apply tr_ok_loop. eapply loop_while_trace; [|exact HE]. intros. eapply body_flags. eassumption.
     - (* SWhileTrue *)
       intros b IHb inl vin env pos oc env' pos' tr cur cur' brks prs HE HB Hok Ht HR Hw.
@@ -911,7 +963,7 @@ Section Main.
       { apply tr_ok_loop. eapply loop_forever_trace; [|exact HE]. intros. eapply body_flags. eassumption. }
       destruct (is_bnil b) eqn:Eb.
       + inversion HB; subst. destruct b; [|discriminate Eb].
-        destruct (loop_forever_sound (exec_block o fuel true BNil) (fun _ => True) (fun _ => True) (fun _ => False)) with (3 := HE) as [G|[_ []]].
+        destruct (loop_forever_sound (exec_block o fuel true BNil) (fun _ => True) (fun _ => True) (fun _ => False)) with (3 := HE) as [[r G]|[_ []]].
         { tauto. }
         { intros en p oc1 en1 p1 tr1 Hbd _. cbn in Hbd. inversion Hbd; subst. split; [tauto | discriminate]. }
         { exact I. }
@@ -921,7 +973,7 @@ Section Main.
         assert (assigns_b x b = false \/ tests_b x b = false) as Hcls.
         { apply orb_true_iff in Hcl. destruct Hcl as [H1|H1]; apply negb_true_iff in H1; tauto. }
         destruct (loop_forever_sound (exec_block o fuel true b) (Pin vin b cur e) (P1 vin b cur e) (fun en => R vin (getv en x) (br ++ e)))
-          with (3 := HE) as [G|[G1 G2]].
+          with (3 := HE) as [[r G]|[G1 G2]].
         { intros en HP. right. exact HP. }
         { intros en p oc1 en1 p1 tr1 Hbd HPi.
           destruct (body_step b vin cur e br _ IHb EB Hokb Ht Hcls Hw _ _ _ _ _ _ Hbd HPi) as [S1 S2]. split; [exact S1|].
@@ -945,7 +997,7 @@ Section Main.
       assert (vin <> None -> tests_b x b = false /\ ctests x c = false) as Ht2.
       { intro Hv. specialize (Ht Hv). cbn [tests_s] in Ht. apply orb_false_iff in Ht. exact Ht. }
       destruct (loop_repeat_sound (eval o c) (exec_block o fuel true b) (Pin vin b cur e) (P1 vin b cur e) (fun en => R vin (getv en x) (br ++ tl)))
-        with (4 := HE) as [G|[G1 G2]].
+        with (4 := HE) as [[r G]|[G1 G2]].
       { intros en HP. right. exact HP. }
       { intros en p oc1 en1 p1 tr1 Hbd HPi.
         destruct (body_step b vin cur e br _ IHb EB Hokb (fun Hv => proj1 (Ht2 Hv)) Hcls Hw _ _ _ _ _ _ Hbd HPi) as [S1 S2]. split; [exact S1|].
@@ -976,7 +1028,7 @@ Section Main.
           { apply orb_true_iff in Hcl. destruct Hcl as [H1|H1]; apply negb_true_iff in H1; tauto. }
           destruct (N.to_nat (z + 1 - a)) as [|k] eqn:En; [exfalso; lia|].
           destruct (loop_count_sound (exec_block o fuel true b) (Pin vin b [force cur] e) (P1 vin b [force cur] e)
-                      (fun en => R vin (getv en x) (br ++ e))) with (3 := HE) as [G|[G1 G2]].
+                      (fun en => R vin (getv en x) (br ++ e))) with (3 := HE) as [[r G]|[G1 G2]].
           { intros en HP. right. exact HP. }
           { intros en p oc1 en1 p1 tr1 Hbd HPi.
             destruct (body_step b vin [force cur] e br _ IHb EB Hokb Ht Hcls (wf_single _ (force_wf _ Hw)) _ _ _ _ _ _ Hbd HPi) as [S1 S2].
@@ -1001,6 +1053,29 @@ Section Main.
         destruct oc1; inversion HE; subst.
         * split; [discriminate | split; [intros _; apply R_app_r; apply R_force; apply Hn; reflexivity | exact Htr]].
         * split; [discriminate | split; [intros _; apply R_app_l; apply Hb; reflexivity | exact Htr]].
+        * split; [discriminate | split; [discriminate | exact Htr]].
+      + inversion HE; subst. split; [intros _; exact HS | split; [discriminate | apply tr_ok_nil]].
+    - (* SAssert *)
+      intros c inl vin env pos oc env' pos' tr cur cur' brks prs HE HB Hok Ht HR Hw.
+      rewrite exec_assert in HE. rewrite bstmt_assert in HB. cbn [tests_s] in Ht.
+      destruct (eval o c env pos) as [v p] eqn:Ev. destruct (bindc x c cur) as [tl fl] eqn:Ec. inversion HB; subst.
+      pose proof (bindc_sound o x env vin c cur _ _ v pos p Ec Ev Ht HR) as HS. destruct v.
+      + inversion HE; subst. split; [intros _; rewrite (R_fin _ _ _ cur HS); exact HS | split; [discriminate | apply tr_ok_nil]].
+      + inversion HE; subst. split; [discriminate | split; [discriminate | apply tr_ok_nil]].
+    - (* SReturnIf *)
+      intros e c b IHb inl vin env pos oc env' pos' tr cur cur' brks prs HE HB Hok Ht HR Hw.
+      rewrite exec_returnif in HE. rewrite bstmt_returnif in HB. cbn [ok_loops_s] in Hok.
+      assert (vin <> None -> ctests x c = false /\ tests_b x b = false) as Ht2.
+      { intro Hv. specialize (Ht Hv). cbn [tests_s] in Ht. apply orb_false_iff in Ht. exact Ht. }
+      destruct (eval o c env pos) as [v p] eqn:Ev. destruct (bindc x c cur) as [tl fl] eqn:Ec.
+      destruct (bblock x (B d) inl b (fin tl cur)) as [[e0 br] pr] eqn:EB. inversion HB; subst.
+      pose proof (bindc_sound o x env vin c cur _ _ v pos p Ec Ev (fun Hv => proj1 (Ht2 Hv)) HR) as HS.
+      destruct (bindc_wf _ _ _ _ _ Ec Hw) as [Htl Hfl]. destruct v.
+      + rewrite (R_fin _ _ _ cur HS) in EB. dres (exec_block o fuel inl b env p) as oc1 e1 p1 tr1 E1.
+        destruct (IHb _ _ _ _ _ _ _ _ _ _ _ _ E1 EB Hok (fun Hv => proj2 (Ht2 Hv)) HS Htl) as [Hn [Hb Htr]].
+        destruct oc1; inversion HE; subst.
+        * split; [discriminate | split; [discriminate | exact Htr]].
+        * split; [discriminate | split; [intros _; apply Hb; reflexivity | exact Htr]].
         * split; [discriminate | split; [discriminate | exact Htr]].
       + inversion HE; subst. split; [intros _; exact HS | split; [discriminate | apply tr_ok_nil]].
     - (* RNone *)
